@@ -2,6 +2,7 @@ import Goyang.Lemmas.Bridge
 import Goyang.Lemmas.BridgeRegistry
 import Goyang.Lemmas.BridgeLoad
 import Goyang.Lemmas.Find
+import Goyang.Lemmas.AugmentErrsBridge
 import Goyang.Props.C07
 import Goyang.Props.C04
 /-
@@ -27,7 +28,8 @@ that what is left are decidable predicates on the registry and on the statements
   for "EVERY module has its tree"; the hypotheses of C07 need the trees of the modules with augments);
   proved, together with `LoadedShape`, of every registry `Model.loadTexts` (= `Modules.Parse` per text)
   produces (`loadTexts_registry_shape`).  `AugPosDistinct` is NOT derived from the parser model (C16's
-  `TruePos` gives each statement its position, not that sibling statements have different ones).
+  `TruePos` gives each statement its position, not that sibling statements have different ones); that
+  it cannot simply be dropped is `augPosDistinct_needed` below.
 
 `NoDupNames` (C07) and `KeysUnique` (C04) are the same condition on `Dir` (pairwise different
 sibling names at every node, `keysUnique_iff`); neither asks that names be non-empty, so no side
@@ -38,9 +40,26 @@ given it for the children of the pending entries (`augment_stage_keeps_noDupName
 error is recorded has it — unconditionally false only for the reason C04 documents (two error entries
 with the empty name below one node when the fuel runs out).
 
-Not proved here: "the second order also ends without a `duplicate-node` error" as a statement on
-the error list of the second run (C07 states it on the applications, `EvFree`); it needs an upper
-bound on the errors one application can add, which is a separate development on `fullAt`.
+The error list (C07 (d′)).  The well-formedness the error-list theorems need — one tree per id,
+`KeysUnique` of every tree, `KeysUnique` of the pending augment entries without recorded errors — is
+proved of the phase-start state (`phaseStart_wellformed`, from C04's conditional invariant of
+`toEntry`), so that for `processAll`: its run of the loop ends without errors iff every other order
+does (`augment_clean_iff_processAll`, no new hypothesis), and when no pending augment entry carries an
+error of its own and its run leaves no `duplicate-node` error, every other order ends with the same
+error set and canonical error list (`augment_error_list_order_independent_processAll`).
+
+The two remaining input predicates cannot be dropped (section "why the two input predicates cannot be
+dropped"): `augPosDistinct_needed` exhibits a registry of the loaded shape with the same augment
+statement value twice, for which `NodupPending` fails at phase start; the `..` example shows that for
+a non-plain argument Go's `Find` (`walkParts`) and the analysed loop / the reference semantics
+(`walkN`, `walk`) disagree (replayed on the Go code: `augment "/a:c/a:d/.."` is applied to `c`).
+Not proved: `AugPosDistinct` for registries loaded from TEXTS (true — two statements of one text start
+at different offsets — but not derived from the parser model: it needs "sibling keyword offsets
+increase" for `Spec.Parse.stmts`, injectivity of offset ↦ (line, col), and the transport through
+`encForest`, the AST builder and `Registry.add`; the refinement of the byte-level parser is proved for
+C02-admissible texts only).  The error-list equality for runs WITH pending entries that carry errors
+of their own needs `KeysUnique` of those entries, which C04's invariant gives only for error-free
+entries.
 -/
 namespace Goyang.Props.C07Bridge
 open Goyang.Model Goyang.Spec.Augment Goyang.Spec.Tree
@@ -336,6 +355,74 @@ theorem augment_order_independent_processAll (reg : Registry) (opts : Opts) (plu
   augment_loop_confluent_processAll reg opts plug hL hpos hplain s order h fuel2 mods2 s rfl (fun _ _ => Iff.rfl)
     (phaseInput_holds reg opts plug hL hpos hplain s order h).nodup hcov2 hfuel2
 
+/-! ### the error list (C07 (d′)) for `processAll` -/
+
+/-- What the error-list theorems of Props/C07.lean ask of the forest holds of the state `processAll`
+hands to the augment loop: one tree per id, unique keys in every tree, and unique keys in every
+pending augment entry in which no error is recorded. -/
+theorem phaseStart_wellformed (reg : Registry) (opts : Opts) (plug : Plug) (hL : LoadedShape reg) (s : PState)
+    (order : List Nat) (h : phaseStart reg opts plug = some (s, order)) :
+    (s.forest.trees.map (·.1)).Nodup ∧ (∀ t ∈ s.forest.trees, KeysUnique t.2) ∧
+    (∀ id, ∀ a ∈ s.pendingOf id, a.allErrors = [] → ∀ c ∈ a.dir, KeysUnique c) := by
+  have h0 := ((processAll_phaseStart reg opts plug).2 s order h).1
+  have h1 := one_tree_per_module reg opts plug hL s order h
+  obtain ⟨rfl, _⟩ := phaseStart_eq reg opts plug s order h
+  exact ⟨h1, Lemmas.AugmentErrsBridge.keysUnique_pstate0 reg opts plug h0,
+    Lemmas.AugmentErrsBridge.keysUnique_pending reg opts plug⟩
+
+/-- **(d′) for `processAll`: one order ends without errors iff every other order does.**  The run
+`processAll` makes (its module order, its fuel) against any other run from the same forest over the
+same pending sets: the loop of one leaves no error in the forest exactly when the loop of the other
+leaves none.  No hypothesis beyond those of `augment_loop_confluent_processAll`. -/
+theorem augment_clean_iff_processAll (reg : Registry) (opts : Opts) (plug : Plug) (hL : LoadedShape reg)
+    (hpos : AugPosDistinct reg) (hplain : AugArgsPlain reg) (s : PState) (order : List Nat)
+    (h : phaseStart reg opts plug = some (s, order))
+    (fuel2 : Nat) (mods2 : Array Nat) (s2 : PState)
+    (hforest : s2.forest = s.forest) (hpend : ∀ id a, a ∈ s2.pendingOf id ↔ a ∈ s.pendingOf id)
+    (hn2 : NodupPending s2) (hcov2 : Cover s2 mods2) (hfuel2 : mu s2 < fuel2) :
+    let fuel := s.pending.foldl (fun n p => n + p.2.length) 0 + 2
+    allErrs (augmentLoop reg fuel order.toArray s).2.forest = [] ↔
+      allErrs (augmentLoop reg fuel2 mods2 s2).2.forest = [] := by
+  intro fuel
+  have hin := phaseInput_holds reg opts plug hL hpos hplain s order h
+  have hp2 : PlainPending reg s2 := fun id a ha => hin.plain id a ((hpend id a).1 ha)
+  obtain ⟨hids, hku, hbody⟩ := phaseStart_wellformed reg opts plug hL s order h
+  rw [C07.model_loop_eq reg fuel order.toArray s hin.plain, C07.model_loop_eq reg fuel2 mods2 s2 hp2]
+  exact C07.augment_loop_clean_iff (Res.ofReg reg) fuel fuel2 order.toArray mods2 s s2 hforest hpend hin.nodup hn2
+    (phaseStart_cover reg opts plug s order h) hcov2 (C07.model_fuel_sufficient s hin.keys) hfuel2 hids hku hbody
+
+/-- **(d′) for `processAll`: the error list does not depend on the order.**  When no pending augment
+entry carries an error of its own and `processAll`'s run of the loop leaves no `duplicate-node` error,
+every other run from the same forest over the same pending sets ends with the same set of recorded
+errors — the same canonical error list — and in particular without `duplicate-node` error. -/
+theorem augment_error_list_order_independent_processAll (reg : Registry) (opts : Opts) (plug : Plug)
+    (hL : LoadedShape reg) (hpos : AugPosDistinct reg) (hplain : AugArgsPlain reg) (s : PState) (order : List Nat)
+    (h : phaseStart reg opts plug = some (s, order))
+    (fuel2 : Nat) (mods2 : Array Nat) (s2 : PState)
+    (hforest : s2.forest = s.forest) (hpend : ∀ id a, a ∈ s2.pendingOf id ↔ a ∈ s.pendingOf id)
+    (hn2 : NodupPending s2) (hcov2 : Cover s2 mods2) (hfuel2 : mu s2 < fuel2)
+    (hbodies : ∀ id, ∀ a ∈ s.pendingOf id, a.allErrors = []) :
+    let fuel := s.pending.foldl (fun n p => n + p.2.length) 0 + 2
+    (∀ er ∈ allErrs (augmentLoop reg fuel order.toArray s).2.forest, er.cls ≠ "duplicate-node") →
+    (∀ er, er ∈ allErrs (augmentLoop reg fuel2 mods2 s2).2.forest ↔
+      er ∈ allErrs (augmentLoop reg fuel order.toArray s).2.forest) ∧
+    canonErrs (allErrs (augmentLoop reg fuel2 mods2 s2).2.forest) =
+      canonErrs (allErrs (augmentLoop reg fuel order.toArray s).2.forest) ∧
+    (∀ er ∈ allErrs (augmentLoop reg fuel2 mods2 s2).2.forest, er.cls ≠ "duplicate-node") := by
+  intro fuel hfree
+  have hin := phaseInput_holds reg opts plug hL hpos hplain s order h
+  have hp2 : PlainPending reg s2 := fun id a ha => hin.plain id a ((hpend id a).1 ha)
+  obtain ⟨hids, hku, hbody⟩ := phaseStart_wellformed reg opts plug hL s order h
+  have hcov := phaseStart_cover reg opts plug s order h
+  have hfuel := C07.model_fuel_sufficient s hin.keys
+  rw [C07.model_loop_eq reg fuel order.toArray s hin.plain] at hfree ⊢
+  rw [C07.model_loop_eq reg fuel2 mods2 s2 hp2]
+  have hbook := (loop_run (Res.ofReg reg) fuel order.toArray s hin.nodup hcov hfuel).2.1
+  have hb : ∀ ev ∈ loopTrace (Res.ofReg reg) fuel order.toArray s, ∀ c ∈ ev.aug.dir, KeysUnique c :=
+    fun ev hev => hbody ev.owner ev.aug (hbook.fromPending ev hev) (hbodies ev.owner ev.aug (hbook.fromPending ev hev))
+  exact C07.augment_loop_confluent_errors_observed (Res.ofReg reg) fuel fuel2 order.toArray mods2 s s2 hforest hpend
+    hin.nodup hn2 hcov hcov2 hfuel hfuel2 hids hku hb hfree
+
 /-! ### non-vacuity: the input predicates hold of a concrete two-module set with an augment -/
 section Examples
 open Goyang.Props.C04.Ex
@@ -371,6 +458,68 @@ example : ¬ PlainAbsArg "/a:c/../d" ∧ ¬ PlainAbsArg "a:c" := by
   unfold PlainAbsArg
   rw [h1, h2]
   decide
+
+/-! ### why the two input predicates cannot be dropped (kernel-checked witnesses) -/
+
+/-- A registry value in which module `b` holds the SAME augment statement value twice (same
+position — no parsed text yields this, every `Registry` value of the loaded shape may). -/
+def modB2 : Stmt :=
+  st 1 "module" "b" [
+    st 2 "namespace" "urn:b", st 3 "prefix" "b",
+    st 4 "import" "a" [st 5 "prefix" "a"],
+    st 6 "augment" "/a:c" [st 7 "leaf" "w" [st 8 "type" "string"]],
+    st 6 "augment" "/a:c" [st 7 "leaf" "w" [st 8 "type" "string"]]]
+def reg3 : Registry := (Registry.loadAll [modA, modB2]).1
+def pend3 : List Entry := match phaseStart reg3 {} plug with | some x => x.1.pendingOf 1 | none => []
+
+theorem pend3_twice : pend3.length = 2 ∧ pend3.head?.toList ++ pend3.head?.toList = pend3 :=
+  ⟨by decide +kernel, by unfold pend3; rfl⟩
+
+/-- **`AugPosDistinct` cannot be dropped** from `pending_no_entry_twice` (hence from `PhaseInput`):
+for this registry of the loaded shape, with plain augment arguments, `processAll` enters the augment
+phase with the same entry listed twice for module `b` — `NodupPending`, on which exactly-once and the
+trace bookkeeping rest, is false.  (For registries loaded from texts the predicate is true — two
+statements of one text start at different offsets — but it is not derived from the parser model here:
+C16's `TruePos` gives each statement its own position, the comparison of siblings' positions is not
+part of it, and the refinement of the byte-level parser is proved for C02-admissible texts only.) -/
+theorem augPosDistinct_needed : ∃ reg : Registry, LoadedShape reg ∧ AugArgsPlain reg ∧ ¬ AugPosDistinct reg ∧
+    ∃ s order, phaseStart reg {} plug = some (s, order) ∧ ¬ NodupPending s := by
+  refine ⟨reg3, by decide +kernel, ?_, by decide +kernel, ?_⟩
+  · intro m hm s hs
+    have hall : ∀ m ∈ reg3.mods, ∀ s ∈ m.stmt.all "augment", s.arg = "/a:c" := by decide +kernel
+    rw [hall m hm s hs]
+    exact plainAbsArg_example
+  · obtain ⟨hlen, hdup⟩ := pend3_twice
+    cases h : phaseStart reg3 {} plug with
+    | none => simp [pend3, h] at hlen
+    | some x =>
+      refine ⟨x.1, x.2, rfl, fun hn => ?_⟩
+      have h1 : pend3 = x.1.pendingOf 1 := by simp [pend3, h]
+      rw [h1] at hlen hdup
+      have hnd := hn 1
+      cases hl : x.1.pendingOf 1 with
+      | nil => rw [hl] at hlen; cases hlen
+      | cons a t =>
+        rw [hl] at hdup hnd
+        simp only [List.head?_cons, Option.toList_some, List.cons_append, List.nil_append, List.cons.injEq, true_and] at hdup
+        rw [← hdup] at hnd
+        simp at hnd
+
+/-- **`AugArgsPlain` cannot be dropped**: it is a condition on the input (RFC 7950 has no `.`, `..` or
+empty steps in an absolute schema node identifier; the Go code tolerates them).  With a `..` step Go's
+`Find` — the model's `walkParts` — steps back to the parent, so `augment "/a:c/a:d/.."` is applied to
+`c` (replayed on the Go code: no error, `z` becomes a child of `c`); the reference semantics addresses
+nodes by names from the root and has no node `..`: the analysed loop (`walkN`) and the specification
+(`walk`) find no target.  `model_loop_eq` and every statement about `absAug` would be false of it. -/
+example : let root := Lemmas.AugmentExamples.dir "a" [Lemmas.AugmentExamples.dir "c" [Lemmas.AugmentExamples.dir "d" []]]
+    (walkParts ["a:c", "a:d", ".."] root (some [])).1 = some [.child "c"] ∧
+    (walkN (["a:c", "a:d", ".."].map stripPrefix) root (some [])).1 = none ∧
+    walk root ["c", "d", ".."] = none := by decide
+
+/-- the extra hypothesis of `augment_error_list_order_independent_processAll` (no pending augment
+entry carries an error of its own) holds of the two-module example -/
+example : ((phaseStart reg2 {} plug).map fun x => x.1.pending.all fun p => p.2.all fun a => a.allErrors.isEmpty) =
+    some true := by decide +kernel
 
 end Examples
 
